@@ -83,14 +83,14 @@ def lock_states(f, held_at_entry=False):
     return events, exits
 
 
-def held_at(f, node, held_at_entry=False):
-    """is the mutex held on every path at `node`?"""
+def held_at(f, node, held_at_entry=False, assume0=()):
+    """is the mutex held on every path at `node`? assume0: initial (bool parameter decl, value) assumptions"""
     cfg = f.cfg
     cfg.facts_in()
     pos = cfg.position(node)
     pbool = {p["d"] for p in f.d["params"] if "bool" in f.tname(p["t"])}
     seen = set()
-    work = [(cfg.entry, 1 if held_at_entry else 0, frozenset())]
+    work = [(cfg.entry, 1 if held_at_entry else 0, frozenset(assume0))]
     depths = set()
     while work:
         b, d, assume = work.pop()
@@ -121,6 +121,17 @@ def held_at(f, node, held_at_entry=False):
             if ok:
                 work.append((s, d, frozenset(na)))
     return bool(depths) and min(depths) >= 1, depths
+
+
+def held_flagwise(f, node):
+    """ring_t::removeRef(entry, threadLock): the callee locks itself when threadLock is true and relies on the caller's lock when it is
+    false (checked at the call site, R1). The node must be inside the critical section in both scenarios."""
+    pb = [p["d"] for p in f.d["params"] if "bool" in f.tname(p["t"])]
+    if len(pb) != 1:
+        return held_at(f, node)
+    a, da = held_at(f, node, held_at_entry=False, assume0=[(pb[0], True)])
+    b, db = held_at(f, node, held_at_entry=True, assume0=[(pb[0], False)])
+    return a and b, {"self-locking": sorted(da), "caller-locked": sorted(db)}
 
 
 def run(ctx):
@@ -184,10 +195,8 @@ def run(ctx):
                 held_entry = f.q == "occa::gc::ring_t::removeRef"   # may be entered with the caller's lock when threadLock == false
                 ok, depths = held_at(f, n) if has_lock else (False, set())
                 if not ok and has_lock and f.q == "occa::gc::ring_t::removeRef":
-                    # flag-sensitive: with threadLock == false the caller holds it (checked above)
-                    ok2, d2 = held_at(f, n, held_at_entry=True)
-                    ok = ok2 and min(depths or {0}) >= 0 and all(d >= 0 for d in depths)
-                    ok = ok2
+                    # flag-sensitive: with threadLock == false the caller holds it (checked above), with true the function locks itself
+                    ok, depths = held_flagwise(f, n)
                 R.ob("C30-R2", ok, f.q + " " + f.d["sig"], "write:%s" % s, f.site(n), "ring state is updated inside the critical section" if ok else "ring state is written without holding the ring mutex")
     re_ = prog.fn("occa::gc::ringEntry_t::removeRef")
     callers = {g.q for g in prog.funcs.values() if g.d.get("tmpl") in ("pattern", None) for c in g.walk() if is_call(c) and callee(c) == re_.q}
@@ -199,7 +208,7 @@ def run(ctx):
                 if g in lockers:
                     ok, depths = held_at(g, c)
                     if not ok and g.q == "occa::gc::ring_t::removeRef":
-                        ok, depths = held_at(g, c, held_at_entry=True)
+                        ok, depths = held_flagwise(g, c)
                     R.ob("C30-R2", ok, g.q + " " + g.d["sig"], "call:entry->removeRef() under the lock", g.site(c), "neighbour links rewired inside the critical section" if ok else "links rewired without the lock")
 
     # ---- R3 --------------------------------------------------------------------------
